@@ -132,12 +132,8 @@ Fixpoint unwind (n : nat) (st : state) : state :=
 (* values.to_type(self._sigil, value).clone()   (the clone is fix D20a) *)
 Definition conv_result (f : Z) (st : state) (v : obj) : res obj := conv_arg f st v.
 
-Definition evaluate (f : Z) (args : list expr) (st : state) : R obj :=
-  match lookup f (fns st) with
-  | None => errR st 18
-  | Some (ps0, body) =>
-      (* the sigils of the parameters are completed at evaluation time, with the default types of that moment *)
-      let ps := map (resolve st) ps0 in
+(* the call proper, for the completed parameter names ps *)
+Definition evaluate_call (f : Z) (ps : list Z) (body : expr) (args : list expr) (st : state) : R obj :=
       let mark := length (tvals st) in
       finallyR
         (doR (st1, _) <- eval_args ps args st;
@@ -151,7 +147,14 @@ Definition evaluate (f : Z) (args : list expr) (st : state) : R obj :=
              (doR (st5, v) <- parse body (set_active st3 (f :: active st3));
               liftR st5 (conv_result f st5 v))
              (fun s => set_active s (remove_z f (active s))))
-        (fun s => unwind (length (tvals s) - mark) s)
+        (fun s => unwind (length (tvals s) - mark) s).
+
+Definition evaluate (f : Z) (args : list expr) (st : state) : R obj :=
+  match lookup f (fns st) with
+  | None => errR st 18
+  | Some (ps0, body) =>
+      (* the sigils of the parameters are completed at evaluation time, with the default types of that moment *)
+      evaluate_call f (map (resolve st) ps0) body args st
   end.
 End WithParse.
 
@@ -577,7 +580,7 @@ Definition observe (st : state) : list Z :=
                      | _ => [9] end) [13; 23; 33; 243; 253]
   ++ flat_map (fun n => match lookup n (scal st) with
                         | Some (SNum z) => [1; z]
-                        | _ => [9] end) [174; 184; 142; 48; 244; 252; 268]
+                        | _ => [9] end) [174; 184; 142; 48; 244; 252; 268; 242; 248]
   ++ flat_map (fun n => match lookup n (arrs st) with
                         | Some (d, els) => [1; d] ++ flat_map (ptr_obs st) (firstn 13 els)
                         | None => [9] end) [193; 203]
